@@ -4,6 +4,7 @@
 use crate::{Fmt, Post, ROut, Row, Trunc};
 use simcore::io::{first_diff, is_prefix, Plan, SimSink, HARD_KINDS};
 use simcore::{bail_v, Ctx, R};
+use std::panic::{catch_unwind, AssertUnwindSafe};
 use std::sync::Arc;
 
 fn row_prefix(part: &[Row], whole: &[Row]) -> bool {
@@ -25,29 +26,46 @@ pub struct Reference {
     pub write_offsets: Vec<usize>,
 }
 
+/// The fault-free run could not serve as a reference (it failed, panicked or returned an invalid batch).
+/// No fault was injected, so this is not a C18 matter: the run is skipped and counted; the supervisor
+/// turns a high skip rate into a harness error.
+fn skip(ctx: &Ctx, f: &dyn Fmt, why: &str, detail: String) -> R<Option<Reference>> {
+    ctx.count(&format!("skipped.{why}"), 1);
+    ctx.count("skipped", 1);
+    ctx.ev(why, 0, 0);
+    ctx.note("skipped", serde_json::json!({"why": why, "format": f.name(), "detail": detail}));
+    Ok(None)
+}
+
 /// Fault-free write and read; everything else is compared against this.
-pub fn reference(ctx: &Ctx, f: &dyn Fmt) -> R<Reference> {
+pub fn reference(ctx: &Ctx, f: &dyn Fmt) -> R<Option<Reference>> {
     let sink = SimSink::new(ctx, Plan::none());
-    let w = f.write(ctx, sink.clone(), Post::IntoInner);
+    let w = match catch_unwind(AssertUnwindSafe(|| f.write(ctx, sink.clone(), Post::IntoInner))) {
+        Ok(w) => w,
+        Err(_) => return skip(ctx, f, "reference_write_panicked", String::new()),
+    };
     if !w.api_ok {
-        bail_v!(ctx, "harness_reference_failed", &format!("harness/{}/reference_write", f.name()), "fault-free write failed in {:?}: {:?} ({})", w.failed_call, w.first_err, f.describe());
+        return skip(ctx, f, "reference_write_failed", format!("{:?}: {:?}", w.failed_call, w.first_err));
     }
     let (bytes, sink_calls, write_offsets) = {
         let st = sink.state();
         (st.data.clone(), st.calls, st.write_offsets.clone())
     };
     let bytes = Arc::new(f.normalise(ctx, bytes));
-    let r = f.read(ctx, bytes.clone(), Plan::none());
+    let r = match catch_unwind(AssertUnwindSafe(|| f.read(ctx, bytes.clone(), Plan::none()))) {
+        Ok(r) => r,
+        Err(_) => return skip(ctx, f, "reference_read_panicked", String::new()),
+    };
     if let Some(e) = &r.invalid {
-        bail_v!(ctx, "invalid_array", &format!("{}/reference_read", f.name()), "fault-free read returned an invalid batch: {e}");
+        return skip(ctx, f, "reference_read_invalid_batch", e.clone());
     }
     if let Some(e) = &r.err {
-        bail_v!(ctx, "harness_reference_failed", &format!("harness/{}/reference_read", f.name()), "fault-free read failed: {e} ({})", f.describe());
+        return skip(ctx, f, "reference_read_failed", e.clone());
     }
     ctx.ev_bytes("ref.bytes", &bytes);
     ctx.ev("ref.rows", r.rows.len() as u64, r.batches as u64);
     let source_calls = r.calls();
-    Ok(Reference { bytes, sink_calls, rows: r.rows, source_calls, write_offsets })
+    Ok(Some(Reference { bytes, sink_calls, rows: r.rows, source_calls, write_offsets }))
 }
 
 fn check_read_outcome(ctx: &Ctx, f: &dyn Fmt, r: &ROut, truth: &[Row], what: &str, hard_fired: bool) -> R {
@@ -86,6 +104,8 @@ pub fn write_fault_sweep(ctx: &Ctx, f: &dyn Fmt, rf: &Reference) -> R {
         ctx.count("executions", 1);
         let st = sink.state();
         let fired = st.hard_fired > 0;
+        // same length as st.data; only a random sync marker is rewritten
+        let data = f.normalise(ctx, st.data.clone());
         if fired && w.api_ok {
             bail_v!(ctx, "swallowed_error", &format!("{name}.writer/call_{}", if st.flushes > 0 && k + 1 == n { "last" } else { "k" }),
                 "sink failed at call {k} (variant {variant}: persistent={persistent} post={post:?} zero={}) but every writer API call returned Ok; sink holds {} of {} bytes",
@@ -93,14 +113,14 @@ pub fn write_fault_sweep(ctx: &Ctx, f: &dyn Fmt, rf: &Reference) -> R {
         }
         if f.deterministic() {
             if w.api_ok && !fired {
-                if st.data != *rf.bytes {
-                    bail_v!(ctx, "nondeterministic_output", &format!("{name}.writer/output"), "no fault fired, yet output differs from the reference at byte {}", first_diff(&st.data, &rf.bytes));
+                if data != *rf.bytes {
+                    bail_v!(ctx, "nondeterministic_output", &format!("{name}.writer/output"), "no fault fired, yet output differs from the reference at byte {}", first_diff(&data, &rf.bytes));
                 }
             }
             // whatever was accepted up to the first fault must be a prefix of the fault-free output
             // (later API activity - into_inner() finishing, Drop flushing - may legitimately add bytes after a one-shot fault)
-            let upto = st.len_at_first_hard.unwrap_or(st.data.len()).min(st.data.len());
-            let before = if persistent { &st.data[..] } else { &st.data[..upto] };
+            let upto = st.len_at_first_hard.unwrap_or(data.len()).min(data.len());
+            let before = if persistent { &data[..] } else { &data[..upto] };
             if !is_prefix(before, &rf.bytes) {
                 bail_v!(ctx, "not_a_prefix", &format!("{name}.writer/prefix"), "sink failing at call {k} holds {} bytes that are not a prefix of the fault-free output (first difference at {})", before.len(), first_diff(before, &rf.bytes));
             }
@@ -233,7 +253,9 @@ pub fn benign_part(ctx: &Ctx, f: &dyn Fmt, rf: &Reference) -> R {
 
 pub fn run_all(ctx: &Ctx, f: &dyn Fmt) -> R {
     ctx.note("format", f.describe());
-    let rf = reference(ctx, f)?;
+    let Some(rf) = reference(ctx, f)? else {
+        return Ok(());
+    };
     ctx.count("bytes_written_reference", rf.bytes.len() as u64);
     ctx.count("sink_calls_enumerated", rf.sink_calls as u64);
     ctx.count("source_calls_enumerated", rf.source_calls as u64);
